@@ -78,6 +78,8 @@ Theorem C13_dump_sender_mode : forall p, lib_mode DumpSender p = MVal. Proof. ex
 Print Assumptions C13_dump_sender_mode.
 Theorem C13_dump_receiver_mode : forall p, lib_mode DumpReceiver p = MVal. Proof. exact dump_receiver_mode. Qed.
 Print Assumptions C13_dump_receiver_mode.
+Theorem C13_dump_receiver_rtcp_mode : forall p, lib_mode DumpReceiverRtcp p = MVal. Proof. exact dump_receiver_rtcp_mode. Qed.
+Print Assumptions C13_dump_receiver_rtcp_mode.
 Theorem C13_stats_out_mode : forall p, lib_mode StatsOut p = MVal. Proof. exact stats_out_mode. Qed.
 Print Assumptions C13_stats_out_mode.
 Theorem C13_stats_in_mode : forall p, lib_mode StatsIn p = MVal. Proof. exact stats_in_mode. Qed.
